@@ -2,7 +2,7 @@
 # usage: tools/confirm_seed.sh Cxx-tag   (confirms an independently written seeded change in its worktree /tmp/wt-Cxx-tag)
 id=$1; wt=/tmp/wt-$id; sd=/tmp/seeded/$id
 set -o pipefail
-echo "== demo on unchanged /repo"; (cd /tmp && BIOSCRAPE_VERIF= PYTHONPATH=/repo timeout 900 /venv/bin/python $sd/demo.py > /tmp/confirm-$id-base.log 2>&1); b=$?; echo "exit=$b"
+echo "== demo on unchanged /repo"; (cd /tmp && PYTHONPATH=/repo timeout 900 /venv/bin/python $sd/demo.py > /tmp/confirm-$id-base.log 2>&1); b=$?; echo "exit=$b"
 echo "== demo on changed worktree"; (cd /tmp && PYTHONPATH=$wt timeout 900 /venv/bin/python $sd/demo.py > /tmp/confirm-$id-mut.log 2>&1); m=$?; echo "exit=$m"; tail -3 /tmp/confirm-$id-mut.log
 echo "== test suite on changed worktree"; (cd $wt && PYTHONPATH=$wt /venv/bin/python -m pytest -q -p no:cacheprovider --timeout=900 tests 2>&1 | tail -1) | tee /tmp/confirm-$id-tests.log
 echo "base=$b mut=$m"
